@@ -30,14 +30,26 @@ NA = {
 PENDING = {
 "C04":"end-of-stream clause to be claimed via Engine B (in construction); not yet registered",
 "C17":"to be claimed via Engine B (in construction); not yet registered",
-"C20":"to be claimed via Engine A (in construction); not yet registered",
-"C23":"to be claimed via Engine A (in construction); not yet registered",
 "C27":"to be claimed via Engine B (in construction); not yet registered",
 }
 
 TB_A = "trusted: the LD_PRELOAD shim sees every in-world mutating libc call (audited against strace), tmpfs semantics, lalrpop itself as the *content* oracle (forced build in a clean world), the reference path/discovery model written from the property statement; sampling gives evidence, not proof"
 
 CHECKS = [
+ dict(property_id="C20", quick_cmd="./check C20 quick", thorough_cmd="./check C20 thorough",
+      evidence_file="evidence/C20.json", replay_cmd_template="./check C20 replay {path}", engine="buildsim",
+      level_claimed=dict(category="exploration",
+        text="The simulator owns every source of nondeterminism a generation run can meet: hash keys (getrandom interposed, so every HashMap of lalrpop and its dependencies is re-keyed per run), batch composition and processing order, in-process history, file names and directories, creation order, heap-address shift, environment noise. For every pool grammar (incl. invalid and type-cycle texts) the bytes written and the success of the call must equal a forced build of the text alone under hash seed 0. The canary HashSet order counts distinct hash worlds reached.",
+        design_ref="DESIGN.md section 4 (C20)"),
+      level_note=TB_A + "; determinism is checked over a fixed grammar pool, not over all grammars",
+      technique="deterministic simulation: seeded hash-key / batch / order / address perturbation, outputs compared with the fault-free reference"),
+ dict(property_id="C23", quick_cmd="./check C23 quick", thorough_cmd="./check C23 thorough",
+      evidence_file="evidence/C23.json", replay_cmd_template="./check C23 replay {path}", engine="buildsim",
+      level_claimed=dict(category="exploration",
+        text="Seeded directory worlds (nesting, `src` components in several positions, adversarial file and directory names, links to files/directories inside and outside the root, dangling links, shuffled creation order) crossed with 13 configuration families (every public entry point incl. the CLI, in_dir spellings, OUT_DIR vs out_dir, in_dir conflicts, rerun directives) and a second build after tree changes. An independent discovery + path model written from the statement says which files are processed and where outputs belong; the shim trace gives the set of paths actually mutated.",
+        design_ref="DESIGN.md section 4 (C23)"),
+      level_note=TB_A + "; symlink cycles, non-UTF-8 names and output collisions are not generated; one known finding (dots-only stem) is listed in known_findings.json",
+      technique="deterministic simulation: seeded file-system worlds and histories against a reference path model, libc-level mutation trace as the recorded history"),
  dict(property_id="C21", quick_cmd="./check C21 quick", thorough_cmd="./check C21 thorough",
       evidence_file="evidence/C21.json", replay_cmd_template="./check C21 replay {path}", engine="buildsim",
       level_claimed=dict(category="exploration",
